@@ -289,6 +289,7 @@ def run_cli_project(item):
             out['files'] = g.files
             return out
         ob = C.observe(g, res, d, reserved[use_c], thorough)
+        out['testser'] = run_impl('c15.py', {'testser': res['bld']})['testser']
         out['args'] = ob.judge_args()
         out['ob'] = ob
         out['perturbed'] = C.perturbations(ob, rng) if i % 3 == 0 else []
@@ -454,6 +455,42 @@ def run(ctx):
         if not set(r['expected_def_files']) <= w or (w & set(r['unread'])):
             ctx.extra.setdefault('strace_vs_generator_mismatch', []).append({'i': r['i'], 'expected_missing': sorted(set(r['expected_def_files']) - w)[:5],
                                                                              'unexpected': sorted(w & set(r['unread']))[:5]})
+    # intro-tests.json / intro-benchmarks.json vs the pickled serialisation `meson test` loads, both from the one
+    # configure: through the model (get_test_list as a function of the serialisation) and model-free (mintro.get_test_list
+    # applied to the unpickled objects)
+    tcases, tmeta = [], []
+    for r in jmeta:
+        for kind in ('tests', 'benchmarks'):
+            ts = r['testser'][kind]
+            tcases.append(('testintro', ts['serialised']))
+            tmeta.append((r, kind, ts))
+    if tcases:
+        tmodel = ctx.run_model(tcases) if built else [m[2]['get_test_list'] for m in tmeta]
+        nser = 0
+        for (r, kind, ts), tm in zip(tmeta, tmodel):
+            ctx.count(('testintro', r['i'], kind))
+            nser += len(ts['serialised'])
+            rep = {'i': r['i'], 'seed': r['seed'], 'use_c': r['use_c'], 'setup_args': r['setup_args'], 'configure_args': [], 'files': r['files']}
+
+            def first_diff(a, b):
+                la, lb = a.split(S2), b.split(S2)
+                for x, y in zip(la, lb):
+                    if x != y:
+                        fa, fb = x.split(S1), y.split(S1)
+                        names = ['cmd', 'env', 'name', 'workdir', 'timeout', 'suite', 'is_parallel', 'priority', 'protocol', 'depends', 'extra_paths']
+                        for n, p, q in zip(names, fa, fb):
+                            if p != q:
+                                return {'test': fa[2] if len(fa) > 2 else '?', 'field': n, 'serialised': p.replace(S3, ' | ').replace(S4, '='), 'intro_file': q.replace(S3, ' | ').replace(S4, '=')}
+                return {'entries': [len(la) - 1, len(lb) - 1]}
+            if ts['get_test_list'] != ts['file']:
+                d = first_diff(ts['get_test_list'], ts['file'])
+                ctx.violation('C15:%s:serialisation-vs-intro:project-%d-seed-%d' % (kind, r['i'], r['seed']),
+                              'intro-%s.json is not get_test_list(what `meson test` unpickles) for generated project %d: %s'
+                              % (kind, r['i'], anonymise(json.dumps(d), scratch)), dict(rep, explain=[dict(d, clause=kind)]))
+            if tm != ts['file']:
+                ctx.disagreements.append({'case': ['testintro', 'project %d %s' % (r['i'], kind)],
+                                          'model': anonymise(json.dumps(first_diff(tm, ts['file'])), scratch)})
+        ctx.extra['serialised_tests_compared'] = nser
     # the judge's rejecting paths: perturbed observations, judge vs oracle (and the expected flip)
     pcases, pmeta = [], []
     for r in jmeta:
@@ -472,6 +509,7 @@ def run(ctx):
             ok = (bm == base) if label == 'permute' else (bm != base or set(base) != {'T'})
             flips.setdefault(label, [0, 0])[0 if ok else 1] += 1
         ctx.extra['judge_perturbations'] = {k: {'as_expected': v[0], 'not_as_expected': v[1]} for k, v in flips.items()}
+    ctx.extra['generator_coverage'] = C.coverage(jmeta)
     ctx.extra['cli'] = stats
     ctx.extra['cli_setup_failures'] = nfail_setup
     ctx.extra['cli_s'] = round(time.time() - t0, 1)
